@@ -16,11 +16,17 @@ package conn
 
 import (
 	"bytes"
+	"context"
+	"encoding/json"
 	"fmt"
 	"io"
 	"net"
+	"os"
+	"os/exec"
+	"path/filepath"
 	"strings"
 	"sync"
+	"sync/atomic"
 	"testing"
 	"time"
 
@@ -1174,6 +1180,416 @@ func TestVerifC17Hostile(t *testing.T) {
 		descr := fmt.Sprintf("raw stream into a started MConnection (MaxPacketMsgPayloadSize=%d, channels=[%s]): %s | len(recving) after each item: %v | recving==nil after each item: %v | onError=%v (%v) journal at error=%d | journal: %s",
 			maxsz, c17DescsHuman(ds), strings.Join(ih, "; "), bufs, nils, errored, errVal, nAtErr, jh)
 		cs.Add(id, "hostile:"+kind, true, term, descr)
+	}
+	if err := cs.Write(); err != nil {
+		t.Fatal(err)
+	}
+}
+
+// ---------------------------------------------------------------- TestVerifC17Recover
+//
+// The anchored mechanism "a panic in the send/recv routine of a connection becomes an error of
+// that peer" (MConnection._recover, deferred by sendRoutine and recvRoutine): REAL started
+// MConnection pairs, several of them served by one process; on one of them onReceive (in
+// production: a reactor's Receive) panics on a marked message, or the transport panics inside
+// sendRoutine.  A panic that escapes its goroutine kills the process, so the family runs in a
+// CHILD process (this test binary re-executed with VERIF_C17_CHILD set); a child that dies is an
+// observation ("node crashed") of the case it was running, and the parent starts another child
+// for the remaining cases.
+
+type c17RecCase struct {
+	kind      int // 1 onReceive panics on the marked message, 2 the transport's Write panics in sendRoutine
+	maxsz     int
+	ds        []c17Desc
+	sched     []c17Job // sent on the victim pair, in this order, by one goroutine
+	marked    int      // index in sched of the marked message (kind 2: the transport is armed before it)
+	panicKind int
+	nOthers   int
+}
+
+const c17MarkSeed = 0xEE
+
+var c17PanicTexts = []string{"boom in Receive", "wrapped boom", "assignment to entry in nil map", "index out of range", "reactor failure value 42"}
+
+type c17PanicVal struct{ code int }
+
+func (v c17PanicVal) String() string { return fmt.Sprintf("reactor failure value %d", v.code) }
+
+func c17DoPanic(kind int) {
+	switch kind {
+	case 0:
+		panic("boom in Receive")
+	case 1:
+		panic(fmt.Errorf("wrapped boom: %w", io.ErrUnexpectedEOF))
+	case 2:
+		var m map[string]int
+		m["x"] = 1
+	case 3:
+		var s []int
+		i := 3
+		_ = s[i]
+	}
+	panic(c17PanicVal{42})
+}
+
+// a pure function of the seed and k: the parent and the child both compute it
+func c17GenRecCase(root *vg.Rand, k int) c17RecCase {
+	r := root.Fork(uint64(k))
+	c := c17RecCase{kind: 1, panicKind: r.Intn(5), nOthers: 1 + r.Intn(2)}
+	if k%5 == 4 {
+		c.kind = 2
+	}
+	c.maxsz = []int{1, 2, 3, 4, 5, 8, 16}[r.Intn(7)]
+	c.ds = c17GenDescs(r, c.maxsz)
+	for i := range c.ds {
+		c.ds[i].qcap = 8
+	}
+	n := 1 + r.Intn(7)
+	c.marked = r.Intn(n)
+	seed := byte(r.Intn(200))
+	for i := 0; i < n; i++ {
+		d := c.ds[r.Intn(len(c.ds))]
+		sz := c17Size(r, c.maxsz, d, false)
+		seed += 7
+		if seed == c17MarkSeed {
+			seed++
+		}
+		s := seed
+		if i == c.marked && c.kind == 1 {
+			s = c17MarkSeed
+			if sz == 0 {
+				sz = 1
+			}
+		}
+		c.sched = append(c.sched, c17Job{ch: d.id, msg: c17Msg(s, sz)})
+	}
+	return c
+}
+
+type c17RecObs struct {
+	K           int
+	Accepted    []bool // per sched entry: Send returned true
+	Reached     bool
+	NErr        int
+	ErrHasPanic bool
+	ErrText     string
+	Running     bool
+	SendAfter   bool
+	DelivCh     []int
+	DelivMsg    [][]byte
+	NAtErr      int
+	Others      []bool
+	Notes       []string
+}
+
+// a transport whose Write panics once armed (inside sendRoutine: bufio flush -> conn.Write)
+type c17PanicConn struct {
+	net.Conn
+	armed, fired int32
+}
+
+func (c *c17PanicConn) Write(p []byte) (int, error) {
+	if atomic.LoadInt32(&c.armed) == 1 && atomic.CompareAndSwapInt32(&c.fired, 0, 1) {
+		panic("boom in transport Write")
+	}
+	return c.Conn.Write(p)
+}
+
+type c17Link struct {
+	snd, rcv *MConnection
+	mu       sync.Mutex
+	journal  []c17JE
+	errs     []interface{}
+	nAtErr   int
+	reached  int32
+}
+
+func (l *c17Link) snap() (j []c17JE, errs []interface{}, nAtErr int) {
+	l.mu.Lock()
+	defer l.mu.Unlock()
+	return append([]c17JE{}, l.journal...), append([]interface{}{}, l.errs...), l.nAtErr
+}
+
+// one pair over net.Pipe; panicOn: onReceive of the receiving end panics on marked messages;
+// pconn: wrap the SENDING end's transport
+func c17NewLink(ds []c17Desc, maxsz int, panicKind int, panicOn bool, pconn **c17PanicConn, victimIsSender bool) *c17Link {
+	a, b := net.Pipe()
+	l := &c17Link{}
+	onReceive := func(ch byte, msg []byte) {
+		if panicOn && len(msg) > 0 && msg[0] == c17MarkSeed {
+			atomic.StoreInt32(&l.reached, 1)
+			c17DoPanic(panicKind)
+		}
+		cp := append([]byte{}, msg...)
+		l.mu.Lock()
+		l.journal = append(l.journal, c17JE{ch, cp})
+		l.mu.Unlock()
+	}
+	onErr := func(e interface{}) {
+		l.mu.Lock()
+		l.errs = append(l.errs, e)
+		if len(l.errs) == 1 {
+			l.nAtErr = len(l.journal)
+		}
+		l.mu.Unlock()
+	}
+	nop := func(interface{}) {}
+	var sconn net.Conn = a
+	if pconn != nil {
+		*pconn = &c17PanicConn{Conn: a}
+		sconn = *pconn
+	}
+	rerr, serr := onErr, nop
+	if victimIsSender {
+		rerr, serr = nop, onErr
+	}
+	l.rcv = NewMConnectionWithConfig(b, c17ChDescs(ds), onReceive, rerr, c17Cfg(maxsz, false))
+	l.rcv.SetLogger(log.NewNopLogger())
+	l.snd = NewMConnectionWithConfig(sconn, c17ChDescs(ds), func(byte, []byte) {}, serr, c17Cfg(maxsz, false))
+	l.snd.SetLogger(log.NewNopLogger())
+	_ = l.rcv.Start()
+	_ = l.snd.Start()
+	return l
+}
+
+func (l *c17Link) close() {
+	_ = l.snd.Stop()
+	_ = l.rcv.Stop()
+}
+
+func c17Wait(d time.Duration, f func() bool) bool {
+	for t0 := time.Now(); time.Since(t0) < d; time.Sleep(200 * time.Microsecond) {
+		if f() {
+			return true
+		}
+	}
+	return f()
+}
+
+// runs in the child
+func c17RunRecCase(k int, c c17RecCase) c17RecObs {
+	o := c17RecObs{K: k}
+	var pc *c17PanicConn
+	var victim *c17Link
+	if c.kind == 1 {
+		victim = c17NewLink(c.ds, c.maxsz, c.panicKind, true, nil, false)
+	} else {
+		victim = c17NewLink(c.ds, c.maxsz, c.panicKind, false, &pc, true)
+	}
+	defer victim.close()
+	ods := []c17Desc{{id: 1, prio: 1, qcap: 8, rcap: 64}}
+	var others []*c17Link
+	for i := 0; i < c.nOthers; i++ {
+		l := c17NewLink(ods, 8, 0, false, nil, false)
+		defer l.close()
+		others = append(others, l)
+	}
+	var want [][]byte
+	sendOthers := func(tag byte) {
+		for x := 0; x < 3; x++ {
+			m := c17Msg(tag+byte(x), 1+x*5)
+			for _, l := range others {
+				l.snd.Send(1, m)
+			}
+			want = append(want, m)
+		}
+	}
+	sendOthers(0x10)
+	vmc := victim.rcv
+	if c.kind == 2 {
+		vmc = victim.snd
+	}
+	for i, jb := range c.sched {
+		if c.kind == 2 && i == c.marked {
+			// everything so far is on the wire; from now on the transport panics when written to
+			c17Wait(time.Second, func() bool { j, _, _ := victim.snap(); return len(j) >= i })
+			atomic.StoreInt32(&pc.armed, 1)
+		}
+		o.Accepted = append(o.Accepted, victim.snd.Send(jb.ch, jb.msg))
+	}
+	reached := func() bool {
+		if c.kind == 2 {
+			return atomic.LoadInt32(&pc.fired) == 1
+		}
+		return atomic.LoadInt32(&victim.reached) == 1
+	}
+	o.Reached = c17Wait(2*time.Second, reached)
+	// give the recovery (stop + onError) time to happen; when it never does, this is the full wait
+	c17Wait(300*time.Millisecond, func() bool { _, e, _ := victim.snap(); return len(e) > 0 && !vmc.IsRunning() })
+	time.Sleep(2 * time.Millisecond)
+	sendOthers(0x40)
+	for _, l := range others {
+		l := l
+		ok := c17Wait(2*time.Second, func() bool { j, _, _ := l.snap(); return len(j) >= len(want) })
+		j, errs, _ := l.snap()
+		ok = ok && len(j) == len(want) && len(errs) == 0 && l.rcv.IsRunning() && l.snd.IsRunning()
+		for i := 0; ok && i < len(want); i++ {
+			ok = j[i].ch == 1 && bytes.Equal(j[i].msg, want[i])
+		}
+		o.Others = append(o.Others, ok)
+	}
+	j, errs, nAtErr := victim.snap()
+	o.NErr, o.NAtErr = len(errs), nAtErr
+	if len(errs) > 0 {
+		o.ErrText = fmt.Sprint(errs[0])
+		txt := c17PanicTexts[c.panicKind]
+		if c.kind == 2 {
+			txt = "boom in transport Write"
+		}
+		o.ErrHasPanic = strings.Contains(o.ErrText, txt)
+	} else {
+		o.NAtErr = len(j)
+	}
+	o.Running = vmc.IsRunning()
+	o.SendAfter = vmc.Send(c.ds[0].id, []byte{1})
+	for _, e := range j {
+		o.DelivCh = append(o.DelivCh, int(e.ch))
+		o.DelivMsg = append(o.DelivMsg, e.msg)
+	}
+	return o
+}
+
+// TestVerifC17RecoverChild does nothing unless this binary was re-executed by TestVerifC17Recover.
+func TestVerifC17RecoverChild(t *testing.T) {
+	out := os.Getenv("VERIF_C17_CHILD")
+	if out == "" {
+		return
+	}
+	var from, to int
+	fmt.Sscan(os.Getenv("VERIF_C17_FROM"), &from)
+	fmt.Sscan(os.Getenv("VERIF_C17_TO"), &to)
+	f, err := os.OpenFile(out, os.O_APPEND|os.O_CREATE|os.O_WRONLY, 0o644)
+	if err != nil {
+		t.Fatal(err)
+	}
+	defer f.Close()
+	root := vg.NewRand(vg.Seed() ^ 0xC17EC0)
+	for k := from; k < to; k++ {
+		fmt.Fprintf(f, "START %d\n", k)
+		_ = f.Sync()
+		o := c17RunRecCase(k, c17GenRecCase(root, k))
+		js, _ := json.Marshal(o)
+		fmt.Fprintf(f, "DONE %s\n", js)
+		_ = f.Sync()
+	}
+}
+
+func TestVerifC17Recover(t *testing.T) {
+	if os.Getenv("VERIF_C17_CHILD") != "" {
+		return
+	}
+	cs := vg.NewCases("C17", "c17_recover", "TM.C17.Exec")
+	root := vg.NewRand(vg.Seed() ^ 0xC17EC0)
+	n := vg.Scale(30, 1500)
+	ids := make([]int, n)
+	for k := range ids {
+		ids[k] = cs.NextID()
+	}
+	outFile := filepath.Join(os.TempDir(), fmt.Sprintf("verif_c17_recover_%d.jsonl", os.Getpid()))
+	defer os.Remove(outFile)
+	obs := map[int]*c17RecObs{}
+	crashed := map[int]string{}
+	lo, hi := 0, n
+	if only := vg.Only(); only >= 0 {
+		lo, hi = n, n
+		for k, id := range ids {
+			if id == only {
+				lo, hi = k, k+1
+			}
+		}
+	}
+	for from := lo; from < hi; {
+		_ = os.Remove(outFile)
+		ctx, cancel := context.WithTimeout(context.Background(), 5*time.Minute)
+		cmd := exec.CommandContext(ctx, os.Args[0], "-test.run=^TestVerifC17RecoverChild$", "-test.count=1", "-test.timeout=10m")
+		cmd.Env = append(os.Environ(), "VERIF_C17_CHILD="+outFile, fmt.Sprintf("VERIF_C17_FROM=%d", from), fmt.Sprintf("VERIF_C17_TO=%d", hi))
+		outb, runErr := cmd.CombinedOutput()
+		cancel()
+		next := hi
+		started := -1
+		if bz, err := os.ReadFile(outFile); err == nil {
+			for _, ln := range strings.Split(string(bz), "\n") {
+				switch {
+				case strings.HasPrefix(ln, "START "):
+					fmt.Sscan(ln[6:], &started)
+				case strings.HasPrefix(ln, "DONE "):
+					var o c17RecObs
+					if json.Unmarshal([]byte(ln[5:]), &o) == nil {
+						obs[o.K] = &o
+						started = -1
+					}
+				}
+			}
+		}
+		if started >= 0 { // the child died while running this case
+			tail := string(outb)
+			if i := strings.Index(tail, "panic:"); i >= 0 {
+				tail = tail[i:]
+			}
+			if len(tail) > 300 {
+				tail = tail[:300]
+			}
+			crashed[started] = fmt.Sprintf("child process died (%v): %s", runErr, strings.ReplaceAll(tail, "\n", " | "))
+			next = started + 1
+		} else if runErr != nil && len(obs) == 0 {
+			t.Fatalf("HARNESS: child could not run: %v\n%s", runErr, outb)
+		}
+		from = next
+	}
+	for k := lo; k < hi; k++ {
+		c := c17GenRecCase(root, k)
+		o := obs[k]
+		isCrash := false
+		if o == nil {
+			isCrash = true
+			o = &c17RecObs{K: k}
+			if crashed[k] == "" {
+				crashed[k] = "child process produced no result for this case"
+			}
+			o.Notes = append(o.Notes, crashed[k])
+		}
+		var accC, accH []string
+		marked := -1
+		for i, jb := range c.sched {
+			if i < len(o.Accepted) && o.Accepted[i] || isCrash {
+				if i == c.marked && c.kind == 1 {
+					marked = len(accC)
+				}
+				accC = append(accC, vg.Tup(vg.Z(int64(jb.ch)), c17B(jb.msg)))
+				h := fmt.Sprintf("ch%d:%s", jb.ch, c17Short(jb.msg))
+				if i == c.marked {
+					if c.kind == 1 {
+						h += "[MARKED: onReceive panics]"
+					} else {
+						h = "[transport armed: next Write panics] " + h
+					}
+				}
+				accH = append(accH, h)
+			}
+		}
+		var j []c17JE
+		for i := range o.DelivCh {
+			j = append(j, c17JE{byte(o.DelivCh[i]), o.DelivMsg[i]})
+		}
+		jc, jh := c17Journal(j)
+		oc := make([]string, len(o.Others))
+		for i, b := range o.Others {
+			oc[i] = vg.B(b)
+		}
+		term := vg.App("CRecover", vg.N(uint64(c.kind)), vg.Nat(c.maxsz), c17DescsCoq(c.ds), vg.L(accC), vg.Z(int64(marked)),
+			vg.B(isCrash), vg.B(o.Reached), vg.Z(int64(o.NErr)), vg.B(o.ErrHasPanic), vg.B(o.Running), vg.B(o.SendAfter),
+			jc, vg.Z(int64(o.NAtErr)), vg.L(oc))
+		what := "onReceive of the receiving MConnection panics (" + c17PanicTexts[c.panicKind] + ") on the message whose first byte is 0xee"
+		if c.kind == 2 {
+			what = "the sending MConnection's net.Conn panics in Write (inside sendRoutine) once armed"
+		}
+		descr := fmt.Sprintf("one process serving %d MConnection pairs over net.Pipe; victim pair: MaxPacketMsgPayloadSize=%d channels=[%s], %s; Send accepted in this order [%s]; the other pairs get 3 messages before and 3 after | process died=%v reached=%v onError calls=%d (%q) victim.IsRunning=%v Send afterwards=%v journal: %s (at error: %d) others ok=%v | %s",
+			1+c.nOthers, c.maxsz, c17DescsHuman(c.ds), what, strings.Join(accH, " "), isCrash, o.Reached, o.NErr, o.ErrText, o.Running, o.SendAfter, jh, o.NAtErr, o.Others, strings.Join(o.Notes, "; "))
+		kind := "recover:onReceive-panics"
+		if c.kind == 2 {
+			kind = "recover:transport-write-panics-in-sendRoutine"
+		}
+		cs.Add(ids[k], kind, true, term, descr)
 	}
 	if err := cs.Write(); err != nil {
 		t.Fatal(err)
